@@ -472,7 +472,11 @@ def pytest_sessionfinish(session, exitstatus):
                 cr = ChangeRecorder()
                 apply_all(used_changes, cr)
                 cr.virtual_write()
-                apply_all(changes[flag], cr)
+                # the changes of one container (deleted and inserted elements)
+                # have to be applied together, because they are merged into one edit
+                for file in cr.files():
+                    file.replacements.clear()
+                apply_all(used_changes + changes[flag], cr)
 
                 any_changes = False
 
